@@ -17,7 +17,7 @@ use std::sync::{Arc, Mutex};
 pub const DEF: PropDef = PropDef {
     id: "C11",
     level: "exploration",
-    rule: "single-thread cases = (vocabulary variant, window parameters, sync policy, static data yes/no, two in-order streams, interleaving): two-window engines built with RSPBuilder in SingleThread mode; variants: both blocks over the same predicate (shared vocabulary), disjoint predicates, and blocks sharing a join variable; (width,slide) of each window from {(2,1),(2,2)}; policies Wait and Steal; static background data (a triple over the same predicate) present or not, with a static pattern in the WHERE clause; streams of <=3 items each over a 2-triple alphabet per stream with gaps {1} (thorough {1,2}); EVERY interleaving of the two streams. Oracle, per emitted row and per window i: the row restricted to block i's variables must be an answer of block i over SOME content that a probe window with window i's parameters, fed only stream i, has reported so far; the restriction to the static variables must be an answer over the static data alone. A failing row is tagged explained_by=other_windows_content_visible when it becomes an answer once the contents reported by the OTHER window (or the static data) are added to window i's content - the shared-store defect - and explained_by=nothing otherwise. Multi-thread family (hook H1 baton scheduler with one worker per window and the coordinator thread, channels named per window plus the results channel, deadline expiry of the coordinator's timed receive enumerated as a scheduling choice): disjoint- and shared-vocabulary variants x policies {Wait, Steal, Timeout+Steal, Timeout+Drop} x every interleaving of two streams of <=2 items each (quick: <=3 items in total) under EVERY schedule with <=1 (thorough 2) preemptions; every emitted row must bind the variables of both blocks and each block part must be an answer over a content its own window reports. Non-trivial = single-thread case in which both windows reported a non-empty content, multi-thread case that emits rows; distinct by case.",
+    rule: "single-thread cases = (vocabulary variant, window parameters, sync policy, static data yes/no, two in-order streams, interleaving): two-window engines built with RSPBuilder in SingleThread mode; variants: both blocks over the same predicate (shared vocabulary), disjoint predicates, blocks sharing a join variable, blocks joining on TWO variables over prefix-related literal values (value pairs that differ while their concatenations coincide, events carrying two triples), and a static part joining with a block on two variables; (width,slide) of each window from {(2,1),(2,2)}; policies Wait and Steal; static background data (a triple over the same predicate) present or not, with a static pattern in the WHERE clause; streams of <=3 items each over a 2-triple alphabet per stream with gaps {1} (thorough {1,2}); EVERY interleaving of the two streams. Oracle, per emitted row and per window i: the row restricted to block i's variables must be an answer of block i over SOME content that a probe window with window i's parameters, fed only stream i, has reported so far; the restriction to the static variables must be an answer over the static data alone. A failing row is tagged explained_by=other_windows_content_visible when it becomes an answer once the contents reported by the OTHER window (or the static data) are added to window i's content - the shared-store defect - and explained_by=nothing otherwise. Multi-thread family (hook H1 baton scheduler with one worker per window and the coordinator thread, channels named per window plus the results channel, deadline expiry of the coordinator's timed receive enumerated as a scheduling choice): disjoint-, two-join-variable and shared-vocabulary variants x policies {Wait, Steal, Timeout+Steal, Timeout+Drop} x every interleaving of two streams of <=2 items each (quick: <=3 items in total) under EVERY schedule with <=1 (thorough 2) preemptions; every emitted row must bind the variables of both blocks and each block part must be an answer over a content its own window reports. Non-trivial = single-thread case in which both windows reported a non-empty content, multi-thread case that emits rows; distinct by case.",
     assumptions: &[
         "stop()'s flush is excluded (engines are dropped); multi-thread scheduling points: channel sends/receives, thread start/end, after each window processor, the coordinator's timed receive (deadline expiry is a choice), no points inside mutexes",
         "the probe windows are real CSPARQLWindows (C09's subject)",
@@ -46,14 +46,24 @@ pub struct Variant {
     pub name: &'static str,
     pub block1: Vec<TP>,
     pub block2: Vec<TP>,
-    pub alpha1: Vec<(String, String, String)>,
-    pub alpha2: Vec<(String, String, String)>,
-    pub static_pattern: TP,
+    /// stream alphabets: one event = the triples that arrive together under one timestamp
+    pub alpha1: Vec<Vec<(String, String, String)>>,
+    pub alpha2: Vec<Vec<(String, String, String)>>,
+    pub static_pattern: Vec<TP>,
     pub static_data: Vec<(String, String, String)>,
+    /// objects are plain literals (lexical form = the string itself) instead of IRIs
+    pub literal_objects: bool,
 }
 
 fn t3(s: &str, p: &str, o: &str) -> (String, String, String) {
     (iri(s), iri(p), iri(o))
+}
+fn e1(s: &str, p: &str, o: &str) -> Vec<(String, String, String)> {
+    vec![t3(s, p, o)]
+}
+/// event carrying two literal-valued triples of one subject
+fn e2(s: &str, p1: &str, o1: &str, p2: &str, o2: &str) -> Vec<(String, String, String)> {
+    vec![(iri(s), iri(p1), o1.to_string()), (iri(s), iri(p2), o2.to_string())]
 }
 
 pub fn variants() -> Vec<Variant> {
@@ -62,28 +72,55 @@ pub fn variants() -> Vec<Variant> {
             name: "shared_vocabulary",
             block1: vec![tp(v("a"), c("p"), v("b"))],
             block2: vec![tp(v("c"), c("p"), v("d"))],
-            alpha1: vec![t3("x1", "p", "y1"), t3("x2", "p", "y1")],
-            alpha2: vec![t3("u1", "p", "v1"), t3("u2", "p", "v1")],
-            static_pattern: tp(v("m"), c("p"), v("n")),
+            alpha1: vec![e1("x1", "p", "y1"), e1("x2", "p", "y1")],
+            alpha2: vec![e1("u1", "p", "v1"), e1("u2", "p", "v1")],
+            static_pattern: vec![tp(v("m"), c("p"), v("n"))],
             static_data: vec![t3("k1", "p", "k2")],
+            literal_objects: false,
         },
         Variant {
             name: "disjoint_vocabulary",
             block1: vec![tp(v("a"), c("p"), v("b"))],
             block2: vec![tp(v("c"), c("q"), v("d"))],
-            alpha1: vec![t3("x1", "p", "y1"), t3("x2", "p", "y1")],
-            alpha2: vec![t3("u1", "q", "v1"), t3("u2", "q", "v1")],
-            static_pattern: tp(v("m"), c("r"), v("n")),
+            alpha1: vec![e1("x1", "p", "y1"), e1("x2", "p", "y1")],
+            alpha2: vec![e1("u1", "q", "v1"), e1("u2", "q", "v1")],
+            static_pattern: vec![tp(v("m"), c("r"), v("n"))],
             static_data: vec![t3("k1", "r", "k2")],
+            literal_objects: false,
         },
         Variant {
             name: "join_variable_shared_vocabulary",
             block1: vec![tp(v("a"), c("p"), v("j"))],
             block2: vec![tp(v("j"), c("p"), v("d"))],
-            alpha1: vec![t3("x1", "p", "y1"), t3("y1", "p", "z1")],
-            alpha2: vec![t3("y1", "p", "z1"), t3("z1", "p", "x1")],
-            static_pattern: tp(v("m"), c("p"), v("n")),
+            alpha1: vec![e1("x1", "p", "y1"), e1("y1", "p", "z1")],
+            alpha2: vec![e1("y1", "p", "z1"), e1("z1", "p", "x1")],
+            static_pattern: vec![tp(v("m"), c("p"), v("n"))],
             static_data: vec![t3("z1", "p", "k2")],
+            literal_objects: false,
+        },
+        // two join variables over literal values chosen so that the value pairs differ but their
+        // concatenations coincide ("1"+"23" = "12"+"3"): a join keyed on anything coarser than the
+        // pair of values merges rows that do not agree. Events x1/u2 and x2/u1 genuinely join.
+        Variant {
+            name: "two_join_variables_prefix_related_values",
+            block1: vec![tp(v("a"), c("p"), v("j")), tp(v("a"), c("q"), v("k"))],
+            block2: vec![tp(v("d"), c("r"), v("j")), tp(v("d"), c("s"), v("k"))],
+            alpha1: vec![e2("x1", "p", "1", "q", "23"), e2("x2", "p", "12", "q", "3")],
+            alpha2: vec![e2("u1", "r", "12", "s", "3"), e2("u2", "r", "1", "s", "23")],
+            static_pattern: vec![tp(v("m"), c("t"), v("n"))],
+            static_data: vec![(iri("k1"), iri("t"), "7".to_string())],
+            literal_objects: true,
+        },
+        // the static part joins with a window block on two variables (same value design)
+        Variant {
+            name: "static_join_on_two_variables",
+            block1: vec![tp(v("a"), c("p"), v("j")), tp(v("a"), c("q"), v("k"))],
+            block2: vec![tp(v("c"), c("r"), v("d"))],
+            alpha1: vec![e2("x1", "p", "1", "q", "23"), e2("x2", "p", "12", "q", "3")],
+            alpha2: vec![e1("u1", "r", "v1"), e1("u2", "r", "v1")],
+            static_pattern: vec![tp(v("m"), c("t"), v("j")), tp(v("m"), c("u"), v("k"))],
+            static_data: vec![(iri("k1"), iri("t"), "12".to_string()), (iri("k1"), iri("u"), "3".to_string())],
+            literal_objects: true,
         },
     ]
 }
@@ -95,7 +132,11 @@ fn pat(ts: &[TP]) -> String {
 }
 
 fn line(t: &(String, String, String)) -> String {
-    format!("<{}> <{}> <{}> .", t.0, t.1, t.2)
+    if t.2.starts_with("http://") {
+        format!("<{}> <{}> <{}> .", t.0, t.1, t.2)
+    } else {
+        format!("<{}> <{}> \"{}\" .", t.0, t.1, t.2)
+    }
 }
 
 pub type Row = Vec<(String, String)>;
@@ -120,7 +161,7 @@ fn build(case: &Case, var: &Variant) -> Result<(RSPEngine<Triple, Row>, Arc<Mute
             s2.lock().unwrap().push(r);
         }),
     };
-    let static_part = if case.with_static { pat(&[var.static_pattern.clone()]) } else { String::new() };
+    let static_part = if case.with_static { pat(&var.static_pattern) } else { String::new() };
     let q = format!(
         "REGISTER RSTREAM <http://out/stream> AS SELECT * FROM NAMED WINDOW :w1 ON :s1 [RANGE {} STEP {}] FROM NAMED WINDOW :w2 ON :s2 [RANGE {} STEP {}] WHERE {{ WINDOW :w1 {{ {} }} WINDOW :w2 {{ {} }} {} }}",
         case.w1.0,
@@ -148,7 +189,7 @@ fn build(case: &Case, var: &Variant) -> Result<(RSPEngine<Triple, Row>, Arc<Mute
 }
 
 fn norm(r: &Row) -> BTreeMap<String, String> {
-    r.iter().map(|(k, v)| (k.trim_start_matches('?').to_string(), v.trim_start_matches('<').trim_end_matches('>').to_string())).collect()
+    r.iter().map(|(k, v)| (k.trim_start_matches('?').to_string(), v.trim_start_matches('<').trim_end_matches('>').trim_matches('"').to_string())).collect()
 }
 
 fn probe(w: (usize, usize)) -> (CSPARQLWindow<usize>, Arc<Mutex<Vec<BTreeSet<usize>>>>) {
@@ -193,15 +234,15 @@ pub fn execute(case: &Case) -> Result<(Vec<Verdict>, bool, usize), String> {
     let vars = variants();
     let var = &vars[case.variant];
     let (mut engine, sink) = build(case, var)?;
-    let tr1: Vec<Vec<Triple>> = var.alpha1.iter().map(|t| engine.parse_data(&line(t))).collect();
-    let tr2: Vec<Vec<Triple>> = var.alpha2.iter().map(|t| engine.parse_data(&line(t))).collect();
+    let tr1: Vec<Vec<Triple>> = var.alpha1.iter().map(|ev| ev.iter().flat_map(|t| engine.parse_data(&line(t))).collect()).collect();
+    let tr2: Vec<Vec<Triple>> = var.alpha2.iter().map(|ev| ev.iter().flat_map(|t| engine.parse_data(&line(t))).collect()).collect();
     let (mut p1, c1) = probe(case.w1);
     let (mut p2, c2) = probe(case.w2);
     let static_facts: BTreeSet<(String, String, String)> = if case.with_static { var.static_data.iter().cloned().collect() } else { BTreeSet::new() };
     let mut verdicts = Vec::new();
     let mut seen_rows = 0usize;
     let (v1, v2) = (block_vars(&var.block1), block_vars(&var.block2));
-    let vs = block_vars(&[var.static_pattern.clone()]);
+    let vs = block_vars(&var.static_pattern);
     for (stream, ai, ts) in &case.feed {
         if *stream == 0 {
             for t in &tr1[*ai] {
@@ -219,8 +260,8 @@ pub fn execute(case: &Case) -> Result<(Vec<Verdict>, bool, usize), String> {
         if rows.is_empty() {
             continue;
         }
-        let contents1: Vec<BTreeSet<(String, String, String)>> = c1.lock().unwrap().iter().map(|s| s.iter().map(|i| var.alpha1[*i].clone()).collect()).collect();
-        let contents2: Vec<BTreeSet<(String, String, String)>> = c2.lock().unwrap().iter().map(|s| s.iter().map(|i| var.alpha2[*i].clone()).collect()).collect();
+        let contents1: Vec<BTreeSet<(String, String, String)>> = c1.lock().unwrap().iter().map(|s| s.iter().flat_map(|i| var.alpha1[*i].iter().cloned()).collect()).collect();
+        let contents2: Vec<BTreeSet<(String, String, String)>> = c2.lock().unwrap().iter().map(|s| s.iter().flat_map(|i| var.alpha2[*i].iter().cloned()).collect()).collect();
         let all1: BTreeSet<_> = contents1.iter().flatten().cloned().collect();
         let all2: BTreeSet<_> = contents2.iter().flatten().cloned().collect();
         for row in &rows {
@@ -246,11 +287,11 @@ pub fn execute(case: &Case) -> Result<(Vec<Verdict>, bool, usize), String> {
             }
             if case.with_static {
                 let part: BTreeMap<String, String> = row.iter().filter(|(k, _)| vs.contains(*k)).map(|(k, v)| (k.clone(), v.clone())).collect();
-                if part.len() != vs.len() || !answers(&[var.static_pattern.clone()], &static_facts).contains(&part) {
+                if part.len() != vs.len() || !answers(&var.static_pattern, &static_facts).contains(&part) {
                     let mut widened = static_facts.clone();
                     widened.extend(all1.iter().cloned());
                     widened.extend(all2.iter().cloned());
-                    let explained = part.len() == vs.len() && answers(&[var.static_pattern.clone()], &widened).contains(&part);
+                    let explained = part.len() == vs.len() && answers(&var.static_pattern, &widened).contains(&part);
                     verdicts.push(Verdict { symptom: "static_part_not_from_static_data", detail: format!("emitted row {:?}: static part {:?} is not an answer over the static data {:?}", row, part, static_facts), explained });
                 }
             }
@@ -328,6 +369,7 @@ fn record(out: &mut ShardOut, case: &Case) {
     }
     out.outcome(&(rows, verdicts.len()));
     out.count("rows_emitted", rows as u64);
+    out.count(&format!("rows_emitted:{}", variants()[case.variant].name), rows as u64);
     for vd in verdicts {
         let tags = vec![
             format!("variant={}", variants()[case.variant].name),
@@ -404,8 +446,8 @@ fn run_mt(variant: usize, w1: (usize, usize), w2: (usize, usize), policy: MtPoli
     let ro = Arc::clone(&rows_out);
     let trace = sched::run_controlled(prefix, move || {
         let (mut engine, sink) = build_mt(&var, w1, w2, policy).expect("engine build");
-        let tr1: Vec<Vec<Triple>> = var.alpha1.iter().map(|t| engine.parse_data(&line(t))).collect();
-        let tr2: Vec<Vec<Triple>> = var.alpha2.iter().map(|t| engine.parse_data(&line(t))).collect();
+        let tr1: Vec<Vec<Triple>> = var.alpha1.iter().map(|ev| ev.iter().flat_map(|t| engine.parse_data(&line(t))).collect()).collect();
+        let tr2: Vec<Vec<Triple>> = var.alpha2.iter().map(|ev| ev.iter().flat_map(|t| engine.parse_data(&line(t))).collect()).collect();
         for (stream, ai, ts) in &feed2 {
             let (name, trs) = if *stream == 0 { (":s1", &tr1) } else { (":s2", &tr2) };
             for t in &trs[*ai] {
@@ -439,8 +481,8 @@ fn mt_verdicts(variant: usize, w1: (usize, usize), w2: (usize, usize), feed: &Fe
             p2.add_to_window(*ai, *ts);
         }
     }
-    let contents1: Vec<BTreeSet<(String, String, String)>> = c1.lock().unwrap().iter().map(|s| s.iter().map(|i| var.alpha1[*i].clone()).collect()).collect();
-    let contents2: Vec<BTreeSet<(String, String, String)>> = c2.lock().unwrap().iter().map(|s| s.iter().map(|i| var.alpha2[*i].clone()).collect()).collect();
+    let contents1: Vec<BTreeSet<(String, String, String)>> = c1.lock().unwrap().iter().map(|s| s.iter().flat_map(|i| var.alpha1[*i].iter().cloned()).collect()).collect();
+    let contents2: Vec<BTreeSet<(String, String, String)>> = c2.lock().unwrap().iter().map(|s| s.iter().flat_map(|i| var.alpha2[*i].iter().cloned()).collect()).collect();
     let all1: BTreeSet<_> = contents1.iter().flatten().cloned().collect();
     let all2: BTreeSet<_> = contents2.iter().flatten().cloned().collect();
     let (v1, v2) = (block_vars(&var.block1), block_vars(&var.block2));
@@ -526,7 +568,7 @@ fn run_multi_thread_family(ctx: &Ctx, out: &mut ShardOut, idx: &mut u64) {
     }
     let seqs = stream_seqs(2, &[1]);
     let bound = if ctx.thorough() { 2 } else { 1 };
-    for variant in [1usize, 0] {
+    for variant in [1usize, 3, 0] {
         // disjoint vocabulary first (no known-finding noise), then shared vocabulary
         for (w1, w2) in [((2usize, 1usize), (2usize, 1usize)), ((2, 2), (2, 1))] {
             for policy in MT_POLICIES {
